@@ -890,9 +890,15 @@ ssize Process::read(void* buffer, usize length, uint& streams)
     errno = EINVAL;
     return -1;
   }
-  timeval tv = {1000, 0};
   for(;;)
   {
+    // select() clears the set when it times out and may change the time-out: arm both again
+    FD_ZERO(&fdr);
+    if(streams & stdoutStream && fdStdOutRead)
+      FD_SET(fdStdOutRead, &fdr);
+    if(streams & stderrStream && fdStdErrRead)
+      FD_SET(fdStdErrRead, &fdr);
+    timeval tv = {1000, 0};
     int i = select(maxFd + 1, &fdr, 0, 0, &tv);
     if(i == 0)
       continue;
